@@ -327,7 +327,7 @@ func RunAdj(c AdjCase, out *Outcome, emit func(Sent)) {
 			// a hello that changes the set of Up adjacencies makes the server request a new local
 			// LSP: wait for the updater goroutine to have stored it (logical wait, capped)
 			if !eqStrs(upSet(h.Adjs()), prevUp) {
-				deadline := time.Now().Add(3 * time.Second)
+				deadline := time.Now().Add(20 * time.Second)
 				for {
 					if seq, _, ok, _ := h.OwnLSP(); ok && seq > lastSeq {
 						break
